@@ -6,6 +6,10 @@ import json, os
 ALL = ["C%02d" % i for i in range(1, 53)]
 
 CLAIMED = {
+ "C06": dict(
+   text="Entitlement authorization algebra over a universe of 3 entitlements: the real PermitsAccess/Equal, IntersectAccess and EntitlementMapAccess.Image/Domain run on every non-empty conjunction/disjunction set, the unauthorized access and every entitlement map with <= 2 relations (+ identity), against holder semantics: permits iff every holder of the reference authorization satisfies the requirement; intersections never grant more than either side; a mapped authorization promises only what every holder of the input really obtains; errors only for unrepresentable disjunctions.",
+   note="Kernel of C06: structure is concrete on every path (the symbolic choices are forked), so the solver's work is constant evaluation of the path assertions; bound: 3 entitlements, <= 2 relations. The checker's member-access path and run-time authorization checks (programs) are outside.",
+   design="3 C06"),
  "C32": dict(
    text="Int (values.IntValue) + - * / % unary minus with operands up to 8 words, and | ^ & << >> with operands up to 2 words and shifts < 256: the real operation runs with a harness gauge that sums the BigInt memory it meters (real estimators, real wiring); solver shows metered bytes >= 8 * word length of the result for every operand pair in the bound, word lengths handled symbolically without case split.",
    note="Bounds: 8-word operands (int-mode), 2-word operands and shifts < 256 (bv-mode, big.Int model width 448). UInt and the fixed 16/32-byte estimates of the 128/256-bit types are not covered yet. Metering order (before vs after computing) is not observable by the harness.",
@@ -23,11 +27,11 @@ CLAIMED = {
    note="Fix64/UFix64 only, full width. Fix128/UFix128 arithmetic and multiplyDivide delegate to the external github.com/onflow/fixed-point library and are outside this claim (listed in evidence assumptions).",
    design="3 C15"),
  "C16": dict(
-   text="All 484 ordered pairs among the 20 integer/Word types and Fix64/UFix64: the real Convert<T> is executed symbolically on an arbitrary source value; solver shows the result has the same mathematical value (fixed-point to integer truncates toward zero, Word targets reduce mod 2^n) or the conversion fails with an overflow/underflow error exactly when the value is not representable.",
-   note="Full source width (Int/UInt unbounded). Fix128/UFix128 sources/targets and the WithRounding variants are outside (external library). Either error kind is accepted for out-of-range values.",
+   text="All 576 ordered pairs among the 20 integer/Word types, Fix64/UFix64 and Fix128/UFix128: the real Convert<T> is executed symbolically on an arbitrary source value; solver shows the result has the same mathematical value (fixed-point to integer truncates toward zero, Word targets reduce mod 2^n) or the conversion fails with an overflow/underflow error exactly when the value is not representable.",
+   note="Full source width (Int/UInt unbounded; Fix128/UFix128 as arbitrary 128-bit word pairs). The WithRounding variants are outside (external library). Either error kind is accepted for out-of-range values.",
    design="3 C16"),
  "C17": dict(
-   text="Byte encodings: for every integer, Word and 64-bit fixed-point type, fromBigEndianBytes(toBigEndianBytes(x)) == x for every x, the encoding is never longer than the type's size, and the converters never crash and stay in range on every byte array of every allowed length; plus the real bodies of the two byte/sign helpers that other checks summarise.",
+   text="Byte encodings: for every integer, Word and fixed-point type (incl. Fix128/UFix128), fromBigEndianBytes(toBigEndianBytes(x)) == x for every x, the encoding is never longer than the type's size, and the converters never crash and stay in range on every byte array of every allowed length; plus the real bodies of the two byte/sign helpers that other checks summarise.",
    note="Bytes part only. Int/UInt bounded by |x| < 2^128. toString/fromString (strconv, big.Int.Text, fmt) and Address/Path string forms are outside the claim; the array-value layer and the wrapper's length gate are outside.",
    design="3 C17"),
  "C40": dict(
@@ -50,7 +54,7 @@ CLAIMED = {
    note="Full width. The declared set is taken from the language reference (a table in the generator). Fixed-point saturating functions: see evidence bounds (added with C15).", design="3 C13"),
  "C35": dict(
    text="LEB128: for every uint32/uint64/int32/int64 the real Append* followed by Read* (with arbitrary trailing bytes) returns the same integer and the encoded length, the encoding has the canonical length, and the decoders never crash or over-read on any buffer of <= 11 bytes; AppendUint32FixedLength for every length 0..5.",
-   note="Part of C35 only: LEB128 (full integer width; decoder buffers <= 11 bytes). Instruction codec: see evidence. Compilation determinism is outside the claim (compiler over program ASTs is not encodable).", design="3 C35"),
+   note="Part of C35 only: LEB128 (full integer width; decoder buffers <= 11 bytes) and the instruction codec: for every instruction type found in bbq/opcode by go/types, Encode then DecodeInstruction returns the same instruction with the same operands and consumes exactly the encoding (operand arrays of length 0..2, thorough 3), plus PatchJumpBytecode. Compilation determinism is outside the claim (compiler over program ASTs is not encodable).", design="3 C35"),
  "C46": dict(
    text="Bounded symbolic model checking of the real rlp.ReadSize/DecodeString/DecodeList SSA: for every input of the stated lengths (all byte values, incl. 8-byte length prefixes up to 2^64-1) an SMT solver shows no run-time panic is reachable and acceptance/result equal an independent reference decoder; every feasible path is also replayed natively.",
    note="Bounds: input length <= 10 (quick) / 14 (thorough) for strings and headers, <= 4 / 6 for unconstrained lists plus lists with a long-form first item up to 10 / 12 bytes. Trusted: go/ssa, my SSA->SMT executor (validated per path against the native build), z3/cvc5. atree array conversion in the Cadence wrapper is outside.",
@@ -63,7 +67,6 @@ NA_REASON = {
  "C03": "not built yet (stretch kernel: checker branch-join merge)",
  "C04": "reference invalidation over program runs in two engines; not encodable",
  "C05": "copy semantics run through atree slab copying; heap-backed containers out of reach",
- "C06": "not built yet (kernel: entitlement access algebra)",
  "C07": "view purity quantifies over all accepted programs and run-time effects",
  "C08": "subtyping over type graphs built from init-time pointer structures; symbolic execution degenerates to enumeration",
  "C09": "casts vs isInstance over values x types in both engines",
